@@ -26,9 +26,10 @@ def run(ctx):
         "divmod128bin) are covered by the named hypotheses Divlu64Spec / Div128Spec / DivBinSpec of "
         "C01.divMod_spec_partial and by the correspondence run only (every path and every correction count is hit on "
         "each run: tag_histogram).",
-        "Signed Div/Mod/DivMod (sign fix-up around the unsigned routines) is transcribed and compared with the "
-        "implementation on every run; only the panic behaviour (idiv_zero_panics) and the building blocks "
-        "(neg/abs/lessThan vs toInt) are proved, not the Int.tdiv/tmod statement.",
+        "Signed DivMod (magnitudes, sign fix-up, MinInt128 wrap; Div and Mod as its components; DivMod64 as DivMod of the "
+        "sign-extended operand) is proved against Int.tdiv / Int.tmod from the unsigned statement "
+        "(C01.idivMod_spec_partial, same three kernel hypotheses).  Int128.Div64 (its own sign fix-up on an int64) is "
+        "covered by the correspondence run and idiv_zero_panics only.",
     ]
     ctx.harness("./cmd/c01")
     ctx.diff(area="int128", driver="drv_c01", n={"quick": 200000, "thorough": 20000000},
